@@ -30,7 +30,7 @@ CLAIMS = {
  "C04": ("proof", "Theorems for every k in 1..=31 and every byte list over 4..255: the model's vector (pos_map / histogram as in the Rust) equals, column by column, the number of valid windows whose canonical form is that column's k-mer; entries sum to the window count; all-zero row without windows; invariance under reverse complement, lower case and U for T. The normalised entry is the binary64 quotient count / max(1,total) (Flocq model, compared bit for bit); it is proved (Flocq Bdiv_correct) to lie in [0,1] and hence to print as exactly 8 characters; and the printed text is proved to be the 6-decimal rendering of an n with |n/10^6 - count/max(1,total)| <= 0.5e-6 + 2^-53 (integer rounding of fmt6 plus Flocq's error_le_half_ulp for the one division); that fmt6 is what Rust's {:.6} prints is validated text-exact by the correspondence.",
          "7 C04", "Rust float formatting {:.6} is modelled (fmt6) and validated bit/text-exact, not verified; Python and CLI paths are covered by C13/C15.",
          "Coq proof (histogram = occurrence counts over the canonical columns, permutation/extensionality arguments) + differential correspondence incl. metamorphic respellings"),
- "C05": ("proof", "Theorems: the batch loop outputs header ++ rows in record order for EVERY memory limit; the mapped writer's schedule model puts row n into slot n for EVERY worker count and EVERY complete interleaving of TAKE/WRITE/EXIT steps; both writers agree; a header adds exactly one line. Tied to the code by the byte-identity matrix (threads x limits x writers x containers x delimiters), by controlled-scheduler replay through the cfg(kmertools_verif) hooks whose logged trace, write offsets and bytes must equal the model's, and by run-twice agreement on the implementation.",
+ "C05": ("proof", "Theorems: the batch loop outputs header ++ rows in record order for EVERY memory limit; the mapped writer's schedule model puts row n into slot n for EVERY worker count and EVERY complete interleaving of TAKE/WRITE/EXIT steps; both writers agree; a header adds exactly one line; container independence end to end on the executable reader + composition models (a FASTA file in any wrapping and a FASTQ file with the same sequences, any cut into gzip members, any limits: identical output, the specified one). Tied to the code by the byte-identity matrix (threads x limits x writers x containers x delimiters), by controlled-scheduler replay through the cfg(kmertools_verif) hooks whose logged trace, write offsets and bytes must equal the model's, and by run-twice agreement on the implementation.",
          "7 C05", "atomicity of the reader mutex and of one write_at per row, and order preservation of rayon collect, are assumed; interleavings below hook granularity are runtime behaviour the model cannot exhibit (partial).",
          "Coq proof (invariant over all schedules; induction over the batch loop) + schedule replay and trace validation against the hooked implementation"),
  "C07": ("proof", "Theorems: the rendered counts table of the partition/merge model equals the spec table for every n_parts >= 1 and every chunking; chunked counting under any schedule of CHECK/TAKE/INC/ADD/EXIT steps, any worker count and any limit counts every k-mer exactly as often as it occurs over all chunk passes; partition + per-partition merge yields exactly one line per distinct k-mer carrying the total, for every n_parts >= 1 and every chunking; at file level (Model/CtrFs.v, run against the real directory by the `ctrfs` cases) the table parsed back from kmers.counts is the spec table whatever the directory held before. Controlled-scheduler replay of count() through the hooks with trace validation (CHECK/TAKE/INC/ADD/EXIT, several chunk passes). Correspondence: kmers.counts (numeric and ACGT) and surviving temp files for ceilings giving 1..dozens of chunks/partitions, threads default/1..16, repetitive inputs.",
